@@ -2,7 +2,7 @@
 from qvlib import hir
 from qvlib.extract import CheckError
 from qvlib.facts import op_local, op_place
-from qvlib.paths import Flow, agg_sites, diverging_blocks, err_blocks, explore, path_desc
+from qvlib.paths import call_matches, Flow, agg_sites, diverging_blocks, err_blocks, explore, path_desc
 
 CRATES = ["quiver_compiler", "quiver_core"]
 COMP = "quiver_compiler::compiler::Compiler"
@@ -281,6 +281,69 @@ def r5_narrowing_belongs_to_its_binding(ctx):
                                   "index of the scope that holds the binding): a narrowing recorded for an outer variable retypes an inner variable with the "
                                   "same name" % (t3.get("callee") or "").split("::")[-1], b.loc(b3))
     ctx.floor(R, "narrowing reads in lookup_variable", n, 1)
+    # FIELD narrowings (`narrowings.fields`, keyed by provenance): a provenance rooted at a variable NAME means a different value under a shadowing
+    # binding, so every read / write of that table is made on the INNERMOST scope only (`scopes.last()` / `last_mut()`), or — like lookup_variable —
+    # on a part of the stack bounded by a binding search
+    LAST = ("slice::last", "slice::last_mut", "Vec::last", "Vec::last_mut")
+    TC2 = TC + ("Option::and_then", "Option::map", "Option::as_ref", "Option::as_mut", "Option::expect", "slice::iter_mut", "IndexMut::index_mut", "DerefMut::deref_mut")
+    nf = 0
+    for body in F.bodies(crate="quiver_compiler"):
+        if "::compiler::" not in body.key or body.fn.get("derived"):
+            continue
+        hits = []
+        for bi, si, st in body.stmts():
+            if st["k"] != "assign":
+                continue
+            pp = st["rv"].get("p") or (op_place(st["rv"].get("op") or {}) if st["rv"]["k"] in ("use", "cast") else None)
+            if pp and any(e[0] == "f" and e[1] == "fields" and (e[2] or "").endswith("Narrowings") for e in pp["pr"]):
+                hits.append((bi, si, pp))
+        if not hits:
+            continue
+        bfl = Flow(body, through_named=True)
+        for bi, si, pp in hits:
+            nf += 1
+            back = bfl.backward({pp["l"]}, through_calls=TC2)
+            innermost = any(t["dest"]["l"] in back and call_matches(t, LAST) for _b, t in body.calls())
+            bounded = False
+            how = "?"
+            if innermost:
+                how = "scope = scopes.last()"
+            elif "::{closure" in body.key and any(2 <= x <= body.mir["argc"] for x in back):
+                use = F.closure_use(body.key)
+                if use:
+                    pb, _b2, t2, ai = use
+                    if ai > 0 and op_place(t2["args"][0]):
+                        pfl = Flow(pb, through_named=True)
+                        pback = pfl.backward({op_place(t2["args"][0])["l"]}, through_calls=TC2)
+                        innermost = any(t["dest"]["l"] in pback and call_matches(t, LAST) for _b, t in pb.calls())
+                        how = "closure over scopes.last()" if innermost else "closure handed to %s" % (t2.get("callee") or "?").split("::")[-1]
+                        if not innermost:
+                            # bounded below by a binding search in the builder?
+                            for _b3, _s3, st3 in pb.stmts():
+                                if st3["k"] == "assign" and st3["p"]["l"] in pback and st3["rv"]["k"] == "agg" and \
+                                        (st3["rv"].get("adt") or "").split("::")[-1] in ("RangeFrom", "Range", "RangeInclusive"):
+                                    lo = op_place(st3["rv"]["ops"][0]) if st3["rv"]["ops"] else None
+                                    if lo and any("bindings" in {f for _o, f in pfl.slice_reads(x)[0]} for x in pfl.backward({lo["l"]}, through_calls=("Try::branch", "Option::unwrap", "Option::map", "Option::expect", "Iterator::position", "Iterator::rposition"))):
+                                        bounded = True
+                                        how = "range bounded by a binding search"
+            elif any(1 <= x <= body.mir["argc"] and "Scope" in body.local_ty(x) and "[" not in body.local_ty(x) and "Vec<" not in body.local_ty(x) for x in back):
+                # a helper handed ONE scope: every caller must hand it the innermost one
+                cs = F.callers_of(body.key.split("::{closure")[0])
+                okc = bool(cs)
+                for ck_, cbi in cs:
+                    cbod = F.body(ck_)
+                    cfl2 = Flow(cbod, through_named=True)
+                    t3 = cbod.blocks[cbi]["term"]
+                    okc = okc and any(op_place(a) and any(t4["dest"]["l"] in cfl2.backward({op_place(a)["l"]}, through_calls=TC2) and call_matches(t4, LAST)
+                                                          for _b4, t4 in cbod.calls()) for a in t3["args"])
+                innermost = okc
+                how = "single scope handed in by callers that pass scopes.last()"
+            ctx.check(innermost or bounded, R, "%s|field-narrowings#%d" % (body.key.split("::{closure")[0], sum(1 for o in ctx.obs if o["rule"] == R and o["site"].startswith(body.key.split("::{closure")[0] + "|field-narrowings"))),
+                      "field narrowings are consulted on the innermost scope only (%s)" % how,
+                      "field narrowings (keyed by a provenance that names a VARIABLE) are read from scopes other than the innermost, without stopping at the "
+                      "scope that binds the name (%s): a narrowing recorded for an outer tuple variable is applied to an inner variable that shadows it — "
+                      "reachable branches are pruned as unmatchable" % how, body.loc(bi, si))
+    ctx.floor(R, "reads / writes of narrowings.fields", nf, 2)
 
 
 def r4_check_elision_and_unions(ctx):
